@@ -47,7 +47,10 @@ def classify_obligation(o, unit_name="."):
     if o.ok:
         return "ok"
     for un, src, obj, kind, name in A.OBLIGATION_ASSUMPTIONS:
-        if re.search(un, unit_name) and re.search(src, o.inst.src_fn() or "") and re.search(obj, o.desc) and re.search(kind, o.kind):
+        # the source function may be the site's own or any function it was inlined from through (a helper extracted from a listed
+        # function is still that function's code)
+        chain = [l.get("fn") or "" for l in (o.inst.loc or [])] or [o.inst.src_fn() or ""]
+        if re.search(un, unit_name) and any(re.search(src, c) for c in chain) and re.search(obj, o.desc) and re.search(kind, o.kind):
             return "assumed:" + name
     if o.ok is None:
         return "unknown-extent"
